@@ -146,6 +146,19 @@ func runC16(e *core.Env) error {
 					ig.Table.Columns = append(ig.Table.Columns, wpg.Column{Name: f, Type: fieldType(f)})
 				}
 			}
+			// identity columns spelled out in the table only (e.g. to index them) while the block list
+			// does not name them: the block field must still be added, or the rows go unstamped
+			for _, f := range []string{"ig_name", "src_name", "block_num", "tx_idx"} {
+				if rr.Chance(1, 6) {
+					dup := false
+					for _, c := range ig.Table.Columns {
+						dup = dup || c.Name == f
+					}
+					if !dup {
+						ig.Table.Columns = append(ig.Table.Columns, wpg.Column{Name: f, Type: fieldType(f)})
+					}
+				}
+			}
 			// an identity column in the table that the integration does not write
 			if rr.Chance(1, 10) {
 				ig.Table.Columns = append(ig.Table.Columns, wpg.Column{Name: "abi_idx", Type: "int2"})
